@@ -215,12 +215,21 @@ def run(ctx):
         kind = l.split()[0]
         kv = dict(x.split("=", 1) for x in l.split()[1:] if "=" in x)
         if kind == "RECCOUNT":
-            sig = ("RECCOUNT", kv.get("mode"))
+            # signature of the known finding F6: every thread's records are exactly its stats_on_gvt calls, the node's records are
+            # thread 0's, and the threads merely took part in different numbers of rounds (the flush loop dropped a round's value).
+            # Anything else (node differs from thread 0, a thread's records differ from its calls) is a different violation.
+            try:
+                tcounts = [int(kv["t%d" % i]) for i in range(int(kv["threads"]))]
+                traced = [int(x) for x in kv.get("traced_gvts", "").split(",") if x]
+                f6 = int(kv["node"]) == tcounts[0] and traced == tcounts and max(tcounts) - min(tcounts) <= 1
+            except (KeyError, ValueError, IndexError):
+                f6 = False
+            signature = "threads-took-part-in-different-numbers-of-rounds" if f6 else "records-do-not-match-rounds"
+            sig = ("RECCOUNT", kv.get("mode"), signature)
             if sig in seen:
                 continue
             seen.add(sig)
-            # threads hold different numbers of records (F6); scripted runs reproduce it deterministically
-            ctx.violation("record-count-mismatch", {"mode": kv.get("mode"), "input": l}, True)
+            ctx.violation("record-count-mismatch", {"mode": kv.get("mode"), "signature": signature, "input": l}, True)
         else:
             if (kind,) in seen:
                 continue
